@@ -40,8 +40,9 @@ def run(prog, check):
         parts = {x.attr for x in ast.walk(f.node) if isinstance(x, ast.Attribute) and x.attr in PARTITIONS}
         assigns = [n for n in ast.walk(f.node) if isinstance(n, ast.Assign) and isinstance(n.targets[0], ast.Attribute)
                    and isinstance(n.targets[0].value, ast.Name) and n.targets[0].value.id == 'self']
-        if len(parts) >= 3 and assigns and not any(isinstance(x, ast.Call) and call_name(x) == 'eval' for x in ast.walk(f.node)) \
-                and f.name != '__init__':
+        if len(parts) >= 3 and assigns and not any(isinstance(x, ast.Call) and call_name(x) in ('eval', 'deepcopy', '_GetCopy', 'SolveStep')
+                                                   for x in ast.walk(f.node)) and f.name != '__init__' and \
+                isinstance(assigns[0].value, (ast.List, ast.ListComp, ast.Call, ast.BinOp)):
             builders.append((f, assigns[0].targets[0].attr, parts))
     if len(builders) != 1:
         raise AnalysisError('cannot identify the variable-list builder: %s' % [b[0].qualname for b in builders])
@@ -260,6 +261,30 @@ def run(prog, check):
                  'process-wide state %s is not read by model / solver code' % gw if ok else
                  'process-wide state %s is read at %s' % (gw, reads[:3]),
                  'two models / solvers built in one process')
+    # class-level mutable objects that instances read through `self.<attr>` are shared by all instances
+    n_mut = 0
+    for ci in prog.classes.values():
+        if not prog.is_core(ci.module.rel):
+            continue
+        for st in ci.node.body:
+            if isinstance(st, ast.Assign) and isinstance(st.targets[0], ast.Name) and (
+                    isinstance(st.value, (ast.List, ast.Dict, ast.Set)) or
+                    (isinstance(st.value, ast.Call) and call_name(st.value) in ('list', 'dict', 'set'))):
+                attr = st.targets[0].id
+                n_mut += 1
+                via_self = []
+                for f in prog.all_functions():
+                    for x in ast.walk(f.node):
+                        if isinstance(x, ast.Attribute) and x.attr == attr and isinstance(x.ctx, ast.Load) and \
+                                isinstance(x.value, ast.Name) and x.value.id == 'self' and f.cls is not None and \
+                                any(c.name == ci.name for c in f.cls.mro):
+                            via_self.append('%s:%d' % (f.module.rel, x.lineno))
+                ok = not via_self
+                check.ob('C17.R5', '%s::class-level-mutable(%s)' % (ci.key, attr), ok, '%s:%d' % (ci.module.rel, st.lineno),
+                         'class-level %s is only used as an explicit process-wide registry (%s.%s)' % (attr, ci.name, attr) if ok else
+                         'the mutable class attribute %s is read through self at %s: every instance shares one object, so an in-place edit '
+                         'made through one solver changes the behaviour of all others' % (attr, via_self[:3]),
+                         'two solvers in one process, one of them appends to the list')
     if 'EconomicObject.ID' not in global_writes:
         raise AnalysisError('the process-wide object counter (EconomicObject.ID) was not found')
     nid = 0
